@@ -3,6 +3,7 @@ package props
 import (
 	"bytes"
 	"fmt"
+	"sync"
 
 	"github.com/free5gc/ike/eap"
 
@@ -63,6 +64,35 @@ func c14One(k *core.Case, e *abs.EAP, tag string) {
 			}
 		}
 		k.Count("marshal_x50", 1)
+	}
+	// encodings handed out earlier stay what they were when OTHER packets are encoded afterwards (packet level and
+	// method-data level: both Marshal methods are exported)
+	if le.EapTypeData != nil {
+		var td, tdKeep []byte
+		hp := core.Try(func() {
+			td, _ = le.EapTypeData.Marshal()
+			tdKeep = append([]byte{}, td...)
+			for i := 0; i < 2; i++ {
+				if o, oerr := bridge.BuildEAP(gen.EAP(k.R)); oerr == nil {
+					if i == 0 && o.EapTypeData != nil {
+						_, _ = o.EapTypeData.Marshal()
+					}
+					_, _ = o.Marshal()
+				}
+			}
+			if o, oerr := bridge.BuildEAP(&abs.EAP{Code: 1, ID: 1, Method: &abs.Method{Type: abs.MAkaPrime, AKA: gen.AKAWith(k.R, 1, 127)}}); oerr == nil {
+				_, _ = o.EapTypeData.Marshal()
+			}
+		})
+		if hp != nil {
+			k.Violate("panic", "eap-marshal-other: "+hp.Sig(), "panic", panicData(hp, w))
+			return
+		}
+		if !bytes.Equal(td, tdKeep) || !bytes.Equal(wire, wire2) {
+			k.Violate("history", "earlier-returned-encoding-changed-by-later-Marshal", "an encoding returned by Marshal changed when other packets were marshalled afterwards", w)
+			return
+		}
+		k.Count("held_encodings_rechecked", 1)
 	}
 	// framing by the independent strict parser
 	pe, perr := ref.ParseEAP(wire, true)
@@ -308,7 +338,7 @@ func c14(c *core.Ctx) {
 		}
 		c14One(k, &abs.EAP{Code: uint8(k.R.Pick(1, 2)), ID: k.R.Byte(), Method: m}, "expanded")
 	})
-	c.Require("marshal_x50")
+	c.Require("marshal_x50", "held_encodings_rechecked")
 }
 
 // ---------------------------------------------------------------------------
@@ -671,6 +701,74 @@ func c15(c *core.Ctx) {
 	c.Family("sender", c.N(60000, 20000000), c15Sender)
 	c.Family("reference-orders", c.N(40000, 10000000), c15Reference)
 	c.Family("bit-flips", c.N(200, 40000), c15Flips)
-	c.Require("sender_receiver_agree", "reference_packets_accepted", "reference_packets_over_4k", "exhaustive_flip_packets", "flip_region_attr-padding", "flip_region_attr-reserved-or-bitlen",
+	// several sessions at once, each goroutine with its OWN packet object and key (nothing shared by the caller):
+	// every code computed must be the one the reference gives for that session's packet; the race-detector build
+	// of this family additionally reports hidden shared state inside the library
+	c.Family("parallel-sessions", c.N(24, 2000), func(k *core.Case) {
+		const G = 8
+		type sess struct {
+			le   *eap.EAP
+			key  []byte
+			want []byte
+			wire []byte
+		}
+		var ss []*sess
+		for g := 0; g < G; g++ {
+			a := akaWithMac(k.R, k.R.Intn(128))
+			e := &abs.EAP{Code: uint8(k.R.Pick(1, 2)), ID: k.R.Byte(), Method: &abs.Method{Type: abs.MAkaPrime, AKA: a}}
+			le, err := bridge.BuildEAP(e)
+			if err != nil {
+				continue
+			}
+			key := k.R.Bytes(32)
+			wire, err := le.Marshal()
+			if err != nil {
+				continue
+			}
+			off := macOffset(wire)
+			if off < 0 {
+				continue
+			}
+			zeroed := append([]byte{}, wire...) // CalcEapAkaPrimeAtMAC leaves the object's AT_MAC value zeroed
+			for i := 0; i < 16; i++ {
+				zeroed[off+i] = 0
+			}
+			ss = append(ss, &sess{le: le, key: key, want: refMAC(key, wire, off), wire: zeroed})
+		}
+		iters := 150
+		bad := make([]string, len(ss))
+		var wg sync.WaitGroup
+		for g, s := range ss {
+			wg.Add(1)
+			go func(g int, s *sess) {
+				defer wg.Done()
+				p := core.Try(func() {
+					for i := 0; i < iters && bad[g] == ""; i++ {
+						mac, err := s.le.CalcEapAkaPrimeAtMAC(s.key)
+						if err != nil || !bytes.Equal(mac, s.want) {
+							bad[g] = fmt.Sprintf("iteration %d: library %x, reference %x, err=%v", i, mac, s.want, err)
+						}
+						if b, err := s.le.Marshal(); err != nil || !bytes.Equal(b, s.wire) {
+							bad[g] = fmt.Sprintf("iteration %d: Marshal of the session's own packet (AT_MAC zeroed by the computation) differs from its sequential encoding", i)
+						}
+					}
+				})
+				if p != nil {
+					bad[g] = "panic: " + p.Value
+				}
+			}(g, s)
+		}
+		wg.Wait()
+		k.Eval(len(ss) * iters)
+		for g, b := range bad {
+			if b != "" {
+				k.Violate("mismatch", "mac-wrong-when-sessions-run-in-parallel", b, M{"session": g, "k_aut": core.Hex(ss[g].key), "wire": core.Hex(ss[g].wire)})
+				return
+			}
+		}
+		k.Count("parallel_sessions_agree", 1)
+		k.Distinct(fmt.Sprintf("parallel|%d", len(ss)))
+	})
+	c.Require("parallel_sessions_agree", "sender_receiver_agree", "reference_packets_accepted", "reference_packets_over_4k", "exhaustive_flip_packets", "flip_region_attr-padding", "flip_region_attr-reserved-or-bitlen",
 		"flip_region_mac-value", "flip_region_eap-header", "flip_region_aka-header", "flip_region_attr-type", "flip_region_attr-length", "flip_region_attr-value")
 }
